@@ -24,13 +24,12 @@ Definition e_s2 : kstate :=
 Example e_ph_wf : wf_op e_ph HandleProposedHeaderAccepted.
 Proof.
   split; [vm_compute; reflexivity|]. split; [intros _; vm_compute; reflexivity|].
-  split; [intros t sigs []|]. intros _. split; [vm_compute; reflexivity|discriminate].
+  intros _. split; [vm_compute; reflexivity|discriminate].
 Qed.
 
 Example e_pc_wf : wf_op e_pc HandleVoteProofsAccepted.
 Proof.
-  split; [exact I|]. split; [exact I|]. split; [|exact I].
-  intros t sigs [E|[]]. inversion E; subst. discriminate.
+  split; [exact I|]. split; exact I.
 Qed.
 
 Example e_s1_reachable : reachable_g 1 ex_vs e_s1.
